@@ -57,6 +57,112 @@ impl Outcome {
     }
 }
 
+impl Outcome {
+    /// complete form (file contents as hex) for crossing a process boundary
+    fn to_full_json(&self) -> Value {
+        let files: BTreeMap<String, String> = self.files.iter().map(|(k, v)| (k.clone(), v.iter().map(|b| format!("{:02x}", b)).collect::<String>())).collect();
+        json!({"status": self.status, "files": files, "diag": self.diag, "panic": self.panic, "canary": self.canary, "entropy_calls": self.entropy_calls})
+    }
+    fn from_full_json(v: &Value) -> Option<Outcome> {
+        let mut files = BTreeMap::new();
+        for (k, x) in v.get("files")?.as_object()? {
+            let h = x.as_str()?;
+            let bytes: Option<Vec<u8>> = (0..h.len() / 2).map(|i| u8::from_str_radix(&h[2 * i..2 * i + 2], 16).ok()).collect();
+            files.insert(k.clone(), bytes?);
+        }
+        Some(Outcome {
+            status: v.get("status")?.as_str()?.to_string(),
+            files,
+            diag: v.get("diag")?.as_str()?.to_string(),
+            panic: v.get("panic")?.as_str()?.to_string(),
+            canary: v.get("canary")?.as_str()?.to_string(),
+            entropy_calls: v.get("entropy_calls")?.as_u64()?,
+        })
+    }
+}
+
+// ---------------------------------------------------------------------------------------
+// Simulated processes that are REAL processes. A thread with injected entropy models a fresh
+// process for everything that is created per build; it does not for state that lives in the
+// process itself (a lazily initialised static table built through a HashMap, for instance):
+// all threads of one real process share it. So every project is also built once in each of two
+// different real child processes, and a divergence found that way is confirmed, minimised and
+// replayed with one real process per build.
+// ---------------------------------------------------------------------------------------
+
+fn case_json(p: &Project, faults: &[Fault], style: u64, seeds: &[u64]) -> Value {
+    json!({
+        "engine": "hashsim",
+        "separate_processes": true,
+        "style": style,
+        "project": p.to_json(),
+        "write_faults": faults_json(faults),
+        "entropy_seeds": seeds.iter().map(|s| format!("{:#x}", s)).collect::<Vec<_>>(),
+    })
+}
+
+/// One build in a real process of its own.
+fn xbuild(cli: &Cli, p: &Project, faults: &[Fault], style: u64, seed: u64) -> Option<Outcome> {
+    static N: std::sync::atomic::AtomicU64 = std::sync::atomic::AtomicU64::new(0);
+    let dir = verif_root().join("target").join("cases");
+    std::fs::create_dir_all(&dir).ok()?;
+    let path = dir.join(format!("x-{}-{}.json", std::process::id(), N.fetch_add(1, std::sync::atomic::Ordering::SeqCst)));
+    write_json(&path, &case_json(p, faults, style, &[seed])).ok()?;
+    let out = std::process::Command::new(&cli.exe).arg("C10").arg("--mode").arg("xbuild").arg("--case").arg(&path).output().ok();
+    let _ = std::fs::remove_file(&path);
+    let out = out?;
+    let text = String::from_utf8_lossy(&out.stdout);
+    let v: Value = serde_json::from_str(text.trim()).ok()?;
+    Outcome::from_full_json(&v)
+}
+
+/// Two builds of one project, each in a real process of its own: do they disagree?
+fn xpair(cli: &Cli, p: &Project, faults: &[Fault], style: u64, sa: u64, sb: u64) -> Option<(String, String, String, Outcome, Outcome)> {
+    let a = xbuild(cli, p, faults, style, sa)?;
+    let b = xbuild(cli, p, faults, style, sb)?;
+    classify(&a, &b).map(|(c, s, m)| (c, s, m, a, b))
+}
+
+fn xminimise(cli: &Cli, p: &Project, faults: &[Fault], style: u64, sa: u64, sb: u64, class: &str) -> Project {
+    let still = |q: &Project| matches!(xpair(cli, q, faults, style, sa, sb), Some((c, _, _, _, _)) if c == class);
+    let mut cur = p.clone();
+    let names: Vec<String> = cur.files.keys().cloned().collect();
+    for n in names {
+        if n == "main.asm" || cur.toml.contains(&format!("\"{}\"", n)) {
+            continue;
+        }
+        let mut cand = cur.clone();
+        cand.files.remove(&n);
+        if still(&cand) {
+            cur = cand;
+        }
+    }
+    let names: Vec<String> = cur.files.keys().cloned().collect();
+    for n in names {
+        let text = match String::from_utf8(cur.files[&n].clone()) {
+            Ok(t) => t,
+            Err(_) => continue,
+        };
+        let lines: Vec<String> = text.lines().map(|l| l.to_string()).collect();
+        if lines.len() < 2 {
+            continue;
+        }
+        let base = cur.clone();
+        let kept = ddmin(lines, &mut |ls: &[String]| {
+            let mut cand = base.clone();
+            cand.files.insert(n.clone(), (ls.join("\n") + "\n").into_bytes());
+            still(&cand)
+        });
+        let mut cand = cur.clone();
+        cand.files.insert(n.clone(), (kept.join("\n") + "\n").into_bytes());
+        if still(&cand) {
+            cur = cand;
+        }
+    }
+    cur.label = format!("{} (minimised)", p.label);
+    cur
+}
+
 fn style_of(n: u64) -> DisplayStyle {
     match n % 3 {
         0 => DisplayStyle::Rich,
@@ -461,14 +567,24 @@ fn replay(cli: &Cli, path: &Path) -> i32 {
         return EXIT_HARNESS;
     }
     let faults = faults_from_json(v.get("write_faults"));
-    let a = run_build(&project, &faults, seeds[0], style);
-    let b = run_build(&project, &faults, seeds[1], style);
+    let separate = v.get("separate_processes").and_then(|b| b.as_bool()).unwrap_or(false);
+    let (a, b) = if separate {
+        match (xbuild(cli, &project, &faults, style, seeds[0]), xbuild(cli, &project, &faults, style, seeds[1])) {
+            (Some(a), Some(b)) => (a, b),
+            _ => {
+                eprintln!("harness error: a child process of the replay did not deliver its outcome");
+                return EXIT_HARNESS;
+            }
+        }
+    } else {
+        (run_build(&project, &faults, seeds[0], style), run_build(&project, &faults, seeds[1], style))
+    };
     let mut log = rng::fnv64(&a.digest().to_le_bytes());
     log = rng::fnv64_extend(log, &b.digest().to_le_bytes());
     let r = match classify(&a, &b) {
         Some((class, sig, msg)) => ReplayResult {
             violated: true,
-            sig,
+            sig: if separate { format!("x:{}", sig) } else { sig },
             class,
             message: format!(
                 "{}\n--- entropy seed {:#x}: status={} ---\n{}{}\n--- entropy seed {:#x}: status={} ---\n{}{}",
@@ -548,6 +664,35 @@ pub fn main(cli: &Cli) -> i32 {
             rng::derive(seed, "hashsim.style", k),
         );
         println!("{}", serde_json::to_string_pretty(&json!({"project": p.to_json(), "write_faults": faults_json(&faults), "outcome": o.to_json()})).unwrap());
+        return EXIT_OK;
+    }
+    if cli.mode.as_deref() == Some("xbuild") {
+        // child: one build, the complete outcome on stdout
+        let v = match cli.opts.get("case").and_then(|p| read_json(Path::new(p)).ok()) {
+            Some(v) => v,
+            None => return EXIT_HARNESS,
+        };
+        let project = match v.get("project").and_then(Project::from_json) {
+            Some(p) => p,
+            None => return EXIT_HARNESS,
+        };
+        let s0 = v.get("entropy_seeds").and_then(|s| s.as_array()).and_then(|a| a.first()).and_then(|x| x.as_str().and_then(parse_u64));
+        let s0 = match s0 {
+            Some(s) => s,
+            None => return EXIT_HARNESS,
+        };
+        let o = run_build(&project, &faults_from_json(v.get("write_faults")), s0, v.get("style").and_then(|s| s.as_u64()).unwrap_or(0));
+        println!("{}", o.to_full_json());
+        return EXIT_OK;
+    }
+    if cli.mode.as_deref() == Some("xdigests") {
+        // child: projects --from..--to, one after the other, each under its entropy seed number --jidx
+        let (a, b, j) = (cli.opt_u64("from").unwrap_or(0), cli.opt_u64("to").unwrap_or(0), cli.opt_u64("jidx").unwrap_or(0));
+        for k in a..b {
+            let p = project_for(seed, k);
+            let o = run_build(&p, &fault_plan_for(seed, k, &p), entropy_seed_for(seed, k, j), rng::derive(seed, "hashsim.style", k));
+            println!("X {} {:016x}", k, o.digest());
+        }
         return EXIT_OK;
     }
     let mut ev = Evidence::new(PROP, cli);
@@ -661,6 +806,102 @@ pub fn main(cli: &Cli) -> i32 {
         },
     );
     let mut acc = acc;
+    // cross-process stage: every project once in each of two real child processes (seed numbers 0 and 1)
+    let chunks = cli.workers.max(2) as u64 / 2;
+    let per = (n_projects + chunks - 1) / chunks;
+    let mut children = vec![];
+    for c in 0..chunks {
+        let (a, b) = (c * per, ((c + 1) * per).min(n_projects));
+        if a >= b {
+            continue;
+        }
+        for j in 0..2u64 {
+            let child = std::process::Command::new(&cli.exe)
+                .arg("C10")
+                .arg("--mode")
+                .arg("xdigests")
+                .arg("--seed")
+                .arg(seed.to_string())
+                .arg("--from")
+                .arg(a.to_string())
+                .arg("--to")
+                .arg(b.to_string())
+                .arg("--jidx")
+                .arg(j.to_string())
+                .stdout(std::process::Stdio::piped())
+                .stderr(std::process::Stdio::null())
+                .spawn();
+            children.push((j, child));
+        }
+    }
+    let mut xd: BTreeMap<(u64, u64), u64> = BTreeMap::new();
+    let mut child_failed = false;
+    for (j, child) in children {
+        match child.and_then(|c| c.wait_with_output()) {
+            Ok(out) if out.status.success() => {
+                for l in String::from_utf8_lossy(&out.stdout).lines() {
+                    let w: Vec<&str> = l.split_whitespace().collect();
+                    if w.len() == 3 && w[0] == "X" {
+                        if let (Ok(k), Ok(d)) = (w[1].parse::<u64>(), u64::from_str_radix(w[2], 16)) {
+                            xd.insert((k, j), d);
+                        }
+                    }
+                }
+            }
+            _ => child_failed = true,
+        }
+    }
+    let mut x_pairs = 0u64;
+    let mut x_confirmed = 0u64;
+    let mut x_unconfirmed = 0u64;
+    for k in 0..n_projects {
+        let (d0, d1) = match (xd.get(&(k, 0)), xd.get(&(k, 1))) {
+            (Some(a), Some(b)) => (*a, *b),
+            _ => {
+                child_failed = true;
+                continue;
+            }
+        };
+        x_pairs += 1;
+        acc.digests.push((1_000_000_000 + k, d0 ^ d1.rotate_left(17)));
+        if d0 == d1 || determinism || acc.violations.iter().any(|v| v.run_index == k) {
+            continue;
+        }
+        let p = project_for(seed, k);
+        let faults = fault_plan_for(seed, k, &p);
+        let style = rng::derive(seed, "hashsim.style", k);
+        let (sa, sb) = (entropy_seed_for(seed, k, 0), entropy_seed_for(seed, k, 1));
+        match xpair(cli, &p, &faults, style, sa, sb) {
+            Some((class, sig, _, _, _)) => {
+                x_confirmed += 1;
+                let sig = format!("x:{}", sig);
+                if acc.violations.iter().any(|v| v.sig == sig) {
+                    continue;
+                }
+                let mp = xminimise(cli, &p, &faults, style, sa, sb, &class);
+                let msg = xpair(cli, &mp, &faults, style, sa, sb).map(|x| x.2).unwrap_or_default();
+                acc.violations.push(Violation {
+                    property: PROP,
+                    class,
+                    sig,
+                    message: format!("C10 divergence between two REAL processes in project #{} ({}): {}", k, p.label, msg),
+                    run_index: k,
+                    replay: {
+                        let mut r = case_json(&mp, &faults, style, &[sa, sb]);
+                        r["seed"] = json!(format!("{:#x}", seed));
+                        r["project_index"] = json!(k);
+                        r["original_project"] = p.to_json();
+                        r
+                    },
+                });
+            }
+            None => x_unconfirmed += 1,
+        }
+    }
+    if child_failed && !determinism {
+        eprintln!("harness error: a child process of the cross-process stage failed");
+        return EXIT_HARNESS;
+    }
     acc.digests.sort();
     let mut batch = 0xcbf2_9ce4_8422_2325u64;
     for (k, h) in &acc.digests {
@@ -697,6 +938,7 @@ pub fn main(cli: &Cli) -> i32 {
         json!(acc.panics_all_seeds),
     );
     ev.set("batch_hash", json!(format!("{:016x}", batch)));
+    ev.set("cross_process_stage", json!({"projects_built_in_two_real_processes": x_pairs, "divergences_confirmed_with_one_process_per_build": x_confirmed, "digest_differences_not_confirmed": x_unconfirmed}));
     ev.set("simulated_time_ms", json!(0));
     ev.set("components", json!({
         "real": ["mos::commands::build_command", "mos::config", "mos::diagnostic_emitter (buffered writer)", "mos-core parser/codegen/io (binary writer, listing, vice symbols)", "codespan-reporting", "std HashMap/HashSet with RandomState"],
